@@ -947,10 +947,11 @@ func (x *Exec) backEdge(li *loopInfo, st *State) {
 // exitEdges checks the exit-when clauses of every loop left by the edge from -> to.
 func (x *Exec) exitEdges(from, to *ssa.BasicBlock, st *State) {
 	for _, li := range x.loopList {
+		x.loopExt(li)
 		if !(li.body[from] || li.ext[from]) || li.body[to] || li.ext[to] {
 			continue
 		}
-		if !strings.HasSuffix(to.Comment, ".done") {
+		if li.stmt == nil && !strings.HasSuffix(to.Comment, ".done") {
 			continue // not a normal loop exit (break / condition false) but a return from inside the loop
 		}
 		lc := x.loopContract(li)
@@ -960,6 +961,60 @@ func (x *Exec) exitEdges(from, to *ssa.BasicBlock, st *State) {
 		for i, ew := range lc.ExitWhen {
 			env := x.loopEnv(li, st)
 			x.oblige(st, "exit-when", x.loopPos(li), x.evalClause(env, ew), x.clauseTag(ew, fmt.Sprintf("loop%d.exit%d", li.ord, i+1)), x.clauseProps(ew))
+		}
+	}
+}
+
+// loopExt computes the blocks that belong to the loop statement although they
+// are outside the natural loop: code in front of a break or a return, i.e.
+// blocks all of whose predecessors are in the loop (or in ext) and whose
+// instructions lie inside the source range of the loop statement.  An edge
+// that leaves body+ext is a normal exit of the loop (go/ssa may have fused the
+// "done" block with the code that follows the loop, so block names are no guide).
+func (x *Exec) loopExt(li *loopInfo) {
+	if li.ext != nil {
+		return
+	}
+	li.ext = map[*ssa.BasicBlock]bool{}
+	inside := func(b *ssa.BasicBlock) bool {
+		if li.stmt == nil {
+			return !strings.HasSuffix(b.Comment, ".done")
+		}
+		seen := false
+		for _, in := range b.Instrs {
+			p := in.Pos()
+			if dr, ok := in.(*ssa.DebugRef); ok {
+				p = dr.Expr.Pos()
+			}
+			if !p.IsValid() {
+				continue
+			}
+			seen = true
+			if p < li.stmt.Pos() || p > li.stmt.End() {
+				return false
+			}
+		}
+		if !seen {
+			return !strings.HasSuffix(b.Comment, ".done")
+		}
+		return true
+	}
+	for changed := true; changed; {
+		changed = false
+		for _, b := range x.fn.Blocks {
+			if li.body[b] || li.ext[b] || len(b.Preds) == 0 || !inside(b) {
+				continue
+			}
+			all := true
+			for _, pr := range b.Preds {
+				if !li.body[pr] && !li.ext[pr] {
+					all = false
+				}
+			}
+			if all {
+				li.ext[b] = true
+				changed = true
+			}
 		}
 	}
 }
